@@ -24,6 +24,17 @@ REFACTORS = {
 }
 
 
+# substantial behaviour-preserving changes written by independent sub-agents (they were given the four
+# property records and asked for a realistic, non-trivial change that KEEPS them true, touching the
+# machinery the properties are about): generation-tagged memo instead of the reset walk (R-1), a correct
+# per-expression memo of reduced partials (R-2), restructured derivative objects with immutable mappings
+# (R-3), renames + __slots__ (R-4), an iterative rewriter with per-class cached reducer lists (R-5),
+# try/finally cache hygiene and atomic as_expression() (R-6)
+import glob as _glob
+for _p in sorted(_glob.glob(os.path.join(VERIF, "refactors", "R-*.patch"))):
+    REFACTORS["agent_" + os.path.basename(_p)[:-6]] = f"patch -p1 -s < {_p}"
+
+
 def sh(cmd, timeout=3600):
     return subprocess.run(cmd, shell=True, capture_output=True, text=True, timeout=timeout)
 
